@@ -18,6 +18,7 @@ Definition path_eqb (a b : path) : bool :=
   | PNone, PNone | PText, PText | PContent, PContent | PCast, PCast | PStreamBytes, PStreamBytes
   | PStreamSse, PStreamSse | PEndIter, PEndIter | PRaiseHTTP, PRaiseHTTP | PGenError, PGenError => true
   | PStructure c, PStructure c' => str_eqb c c'
+  | PStreamNdjson a, PStreamNdjson b => Bool.eqb a b
   | _, _ => false
   end.
 Definition pobs := (path * bool * str)%type.
